@@ -239,7 +239,7 @@ pub fn run(ctx: &mut Ctx) {
     for (n, ok) in r9::selftest(ctx.shard == 0) {
         ctx.selftest(&n, ok);
     }
-    ctx.require(&["annex_kat", "honest_keys_equal", "tampered_keys_differ", "responder_rejects_offcurve_RA", "initiator_rejects_offcurve_RB", "tamper=RaOther", "tamper=RbOther", "tamper=RaBitflipOnCurve", "tamper=RbNeg", "klen=1", "klen=128", "parties_have_public_master_key_only", "sparse_ephemeral_scalars", "kdf_direct", "ke=H1(id)_doubling_in_Q", "sk_all_zero_retry_path", "crafted_valid_R_A", "id_beyond_2^16_bits", "same_id_both_parties"]);
+    ctx.require(&["annex_kat", "honest_keys_equal", "tampered_keys_differ", "responder_rejects_offcurve_RA", "initiator_rejects_offcurve_RB", "tamper=RaOther", "tamper=RbOther", "tamper=RaBitflipOnCurve", "tamper=RbNeg", "klen=1", "klen=128", "parties_have_public_master_key_only", "sparse_ephemeral_scalars", "kdf_direct", "ke=H1(id)_doubling_in_Q", "sk_all_zero_retry_path", "crafted_valid_R_A", "id_beyond_2^16_bits", "same_id_both_parties", "many_calls_one_process"]);
     let pr = r9::params();
     let mut paux = ctx.prng("aux");
     if ctx.shard == 0 {
@@ -265,6 +265,26 @@ pub fn run(ctx: &mut Ctx) {
                 responder_with_point(ctx, &ke, b"Alice", b"Bob", klen, &pt, &r_b, "crafted_valid_R_A");
             }
         }
+    }
+    // --- many calls in one process (call-count dependent faults): the responder step 200 times on one R_A
+    if ctx.shard == 0 {
+        let mut pm = ctx.prng("many");
+        let ke = rand_scalar(&mut pm, &(&pr.n - 1u32));
+        let ra_s = rand_scalar(&mut pm, &(&pr.n - 1u32));
+        if let Some(ra) = r9::g1_mul(&ra_s, &r9::exch_q(&ke, b"Bob")) {
+            for i in 0..200u32 {
+                let r_b = rand_scalar(&mut pm, &(&pr.n - 1u32));
+                ctx.class("many_calls_one_process");
+                let before = ctx.violations.len();
+                responder_with_point(ctx, &ke, b"Alice", b"Bob", 16, &ra, &r_b, "many_calls");
+                if ctx.violations.len() != before {
+                    let _ = i;
+                    break;
+                }
+            }
+        }
+    } else {
+        ctx.class("many_calls_one_process");
     }
     // --- the SM9 KDF itself (hook wrapper): every klen 1..=300 plus block-counter boundaries
     {
